@@ -327,3 +327,196 @@ func (p *Program) ConstsByPrefix(rel, prefix string) map[string]string {
 
 	return out
 }
+
+// DynTypes lists the concrete types (module-relative) an interface value is built from, looking
+// through phis; "" entries stand for values whose concrete type is not visible (calls, parameters).
+func (p *Program) DynTypes(v ssa.Value) []string {
+	seen := map[ssa.Value]bool{}
+
+	var out []string
+
+	var walk func(v ssa.Value)
+
+	walk = func(v ssa.Value) {
+		if v == nil || seen[v] {
+			return
+		}
+
+		seen[v] = true
+
+		switch x := v.(type) {
+		case *ssa.MakeInterface:
+			out = append(out, trimMod(types.TypeString(x.X.Type(), nil)))
+		case *ssa.ChangeInterface:
+			walk(x.X)
+		case *ssa.Phi:
+			for _, e := range x.Edges {
+				walk(e)
+			}
+		default:
+			out = append(out, "")
+		}
+	}
+
+	walk(v)
+
+	return out
+}
+
+// IsDynType reports whether v is an interface value built only from concrete type typ.
+func (p *Program) IsDynType(v ssa.Value, typ string) bool {
+	ts := p.DynTypes(v)
+	if len(ts) == 0 {
+		return false
+	}
+
+	for _, t := range ts {
+		if t != typ {
+			return false
+		}
+	}
+
+	return true
+}
+
+// PhiLeaves resolves v through value joins (phis, also those left by inlined helpers' returns) to
+// the set of values it can be, dropping nil constants (a nil is always guarded before use).
+func PhiLeaves(v ssa.Value) []ssa.Value {
+	var out []ssa.Value
+
+	seen := map[ssa.Value]bool{}
+
+	var walk func(v ssa.Value, d int)
+
+	walk = func(v ssa.Value, d int) {
+		v = Fwd(v)
+		if v == nil || seen[v] || d > 8 {
+			return
+		}
+
+		seen[v] = true
+
+		if phi, ok := v.(*ssa.Phi); ok {
+			for _, e := range phi.Edges {
+				walk(e, d+1)
+			}
+
+			return
+		}
+
+		if isNilConst(v) {
+			return
+		}
+
+		out = append(out, v)
+	}
+
+	walk(v, 0)
+
+	return out
+}
+
+// LeavesMatch reports whether every non-nil value v can be matches one of the globs (at least one leaf).
+func (p *Program) LeavesMatch(v ssa.Value, globs ...string) bool {
+	ls := PhiLeaves(v)
+	if len(ls) == 0 {
+		return false
+	}
+
+	for _, l := range ls {
+		if !GlobAny(globs, p.Desc(l)) {
+			return false
+		}
+	}
+
+	return true
+}
+
+// ProvenanceCall walks from v through loads and receivers/first arguments of calls (the chain
+// a.b().c()) and returns the first call whose callee matches glob.
+func (p *Program) ProvenanceCall(v ssa.Value, glob string, depth int) ssa.CallInstruction {
+	for range depth {
+		v = Fwd(v)
+
+		switch x := v.(type) {
+		case *ssa.Call:
+			if Glob(glob, p.CalleeName(x)) {
+				return x
+			}
+
+			args := CallArgs(x)
+			if len(args) == 0 {
+				return nil
+			}
+
+			v = args[0]
+		case *ssa.UnOp:
+			v = x.X
+		case *ssa.Extract:
+			v = x.Tuple
+		case *ssa.FieldAddr:
+			v = x.X
+		default:
+			return nil
+		}
+	}
+
+	return nil
+}
+
+// CaseFieldTable extracts a translation table "switch case → constant stored to a field" without
+// depending on where the struct literal is built. For every key whose case edge (fact caseFact(val))
+// exists in f it returns the candidate constant c such that, on every path from the case edge to a
+// SINK (the instruction that consumes the struct), the field's last store is c:
+//
+//	(A) the sink is unreachable from the case edge once stores of c are cut, and
+//	(B) no store of another value is reachable from the case edge before the sink.
+//
+// The zero value needs no store: it is accepted on (B) alone when no store to the field can reach
+// the case edge since the previous sink.
+func (p *Program) CaseFieldTable(f *ssa.Function, caseFact func(val string) string, keys, cands map[string]string,
+	storeOf func(val string) InstrPred, anyStore, sink InstrPred, zero string,
+) map[string]string {
+	tab := map[string]string{}
+
+	for kname, kval := range keys {
+		starts := p.EdgeSuccs(f, caseFact(kval))
+		if len(starts) == 0 {
+			continue
+		}
+
+		for _, cval := range cands {
+			this := storeOf(cval)
+			other := func(in ssa.Instruction) bool { return anyStore(in) && !this(in) }
+
+			if badB, _ := p.Reach(starts, other, CutSpec{Nodes: sink, TrackEq: true}); badB {
+				continue
+			}
+
+			badA, _ := p.Reach(starts, sink, CutSpec{Nodes: this, TrackEq: true})
+			if badA && cval == zero {
+				// still zero at the case edge?
+				dirty := false
+
+				for _, s := range starts {
+					first := s.B.Instrs[0]
+					if bad, _ := p.Reach(AfterTargets(f, anyStore), func(in ssa.Instruction) bool { return in == first }, CutSpec{Nodes: sink}); bad {
+						dirty = true
+					}
+				}
+
+				badA = dirty
+			}
+
+			if !badA {
+				if _, dup := tab[kname]; dup {
+					tab[kname] = "ambiguous"
+				} else {
+					tab[kname] = cval
+				}
+			}
+		}
+	}
+
+	return tab
+}
